@@ -792,6 +792,13 @@ SUBS = [
 
 KNOWN_PREDICATES = {}
 
+# thorough tier: coverage-guided campaigns (atheris/libFuzzer mutating the bytes Hypothesis draws from)
+FUZZ = {
+    "subs": ['chunks', 'genbank'],  # roundtrip/variants cases need more than the 8 KB of choices fuzz_one_input accepts
+    "targets": ['cogent3.parse', 'cogent3.format', 'cogent3.util.io'],
+    "execs_thorough": 40_000, "jobs_thorough": 4, "execs_quick": 1000, "jobs_quick": 2,
+}
+
 META = {
     "technique": "Hypothesis-generated name/sequence sets; write->load round trip against the generated set, differential between all parser entry points of a format on identical text (cogent3-written and harness-written layouts), chunked line streaming against str.splitlines",
     "level_text": "Each run writes about 1 600 generated sets (names weighted towards FASTA/PHYLIP/Newick metacharacters, lengths around the wrap width and the PHYLIP label field) in all five formats with plain/gz/bz2/zip suffixes through four collection classes, loads them back and feeds the written text to every parser entry point (bytes, list, tuple, str path, Path; strict and non-strict); a further 1 600 sets are laid out by the harness itself (other widths, CRLF, blank lines, interleaved PHYLIP) and 800 line lists are streamed with every chunk size.",
